@@ -200,6 +200,10 @@ def run(facts, res):
             why = "closure body: " + (", ".join(sinks) if sinks else "only keyed / per-element effects")
         elif cons in iters.FIRST_MATCH:
             verdict, why, sinks = "sink", "first-match consumer `%s`" % cons, [cons]
+        elif cons == "extend" and cterm.args and any(k in (body.local_ty(cterm.args[0].place.local) if cterm.args[0].place is not None else "")
+                                                      or k in " ".join(cterm.callee.args) or k in (cterm.callee.self_ty or "") or k in cterm.callee.path
+                                                      for k in iters.KEYED_TYPES):
+            verdict, why = "sanitized", "extends a keyed container"
         else:
             verdict, why, sinks = "sink", "order-dependent consumer `%s`" % cons, [cons]
         where = body.loc(line)
@@ -332,7 +336,9 @@ def run(facts, res):
             for i, a in enumerate(t.args):
                 at = du.operand_term(a, 20)
                 if contains_call(at, "var") and any(x[0] == "const" and x[1] == "str" and "CACHE_CAP" in x[2] for x in walk(at)):
-                    if t.callee.name not in ("unwrap_or_else", "parse", "unwrap", "new", "deref", "as_str", "expect"):
+                    if t.callee.name not in ("unwrap_or_else", "parse", "unwrap", "new", "deref", "as_str", "expect", "map_or", "map_or_else", "unwrap_or",
+                                             "unwrap_or_default", "ok", "and_then", "map", "as_deref", "as_ref", "from_str", "branch", "ok_or", "ok_or_else",
+                                             "new_unchecked", "get", "max", "into", "from", "try_from", "try_into", "filter", "or", "or_else", "is_ok", "is_err"):
                         uses.append(t.callee.name)
         res.instance("D3", "%s: the configured cache capacity only flows into the LRU constructor (other uses: %s)" % (ctor, uses), b.loc())
         if uses:
@@ -549,6 +555,10 @@ def _shared_root(t, body):
                 return None
             if pi[0] in ("agg", "tuple", "array", "const", "cut", "phi"):
                 return None
+            lty_ = body.local_ty(t[1]) or ""
+            if pi[0] == "call" and "&" not in lty_ and "*" not in lty_ and \
+                    lty_.split("<")[0].split("::")[-1] in ("PathBuf", "String", "Vec", "OsString", "BTreeSet", "BTreeMap", "HashMap", "HashSet", "VecDeque"):
+                return None     # an owned value built by a call (`let mut p = self.path.join(prefix)`): task-local
             t = inner
         elif k == "upvar":
             parent = body.facts.body(body.direct_parent) if body.direct_parent else None
@@ -573,6 +583,10 @@ def _shared_root(t, body):
                 return "lock-protected shared value"
             if nme in ("new", "with_capacity", "to_vec", "clone", "collect", "into_vec", "to_owned", "default"):
                 return None
+            ret_ = (c.j.get("ret") or "") if c is not None and hasattr(c, "j") else ""
+            if ret_ and not any(m_ in ret_ for m_ in ("&", "*mut", "*const", "Guard", "RefMut", "Ref<", "Entry", "Iter", "Mut", "Drain", "'")) and \
+                    ret_.split("<")[0].split("::")[-1] in ("PathBuf", "String", "Vec", "OsString", "BTreeSet", "BTreeMap", "HashMap", "HashSet", "VecDeque"):
+                return None     # an owned value built by the call (`self.path.join(prefix)`): task-local
             if t[2]:
                 t = t[2][0]
             else:
